@@ -610,11 +610,15 @@ class BufferMachine(object):
                     return
                 ob.status = RunStatus.RUNNING
                 self.objs[name] = ob
+                if hasattr(buf, 'admitted_observations'):
+                    buf.admitted_observations.append(ob)        # what Scheduler.check_ingest_capacity does on admission
                 try:
                     _start(self, buf.ingest_data_stream(ob))
                 except ValueError as e:
                     res.faults['F8:overrate_rejected'] += 1
                     self.in_op = False
+                    if ob in getattr(buf, 'admitted_observations', []):
+                        buf.admitted_observations.remove(ob)
                     del self.objs[name]
                     for r in [r for r, s in self.streams.items() if s['obs'] == name]:
                         del self.streams[r]
@@ -661,6 +665,14 @@ class BufferMachine(object):
                     return
                 ob = st[-1]
                 size = ob.total_data_size
+                if k == 'c2h':
+                    # Buffer.run never starts a cold->hot move into space that is owed to a streaming ingest
+                    owed = sum(self.objs[s_['obs']].ingest_data_rate * (self.objs[s_['obs']].duration - s_['n'])
+                               for r_, s_ in self.streams.items() if not r_.proc.triggered)
+                    if self.hot.current_capacity - owed - size < 0:
+                        res.probes['move_skipped_space_owed'] += 1
+                        self.in_op = False
+                        return
                 dfree0 = dst.current_capacity
                 sfree0 = src.current_capacity
                 room = dst.has_capacity_for(size)
